@@ -1686,10 +1686,12 @@ func r04DecisionTable(c *core.Ctx) {
 	}
 	// the lists
 	type entry struct {
-		i       string
-		certain ast.Expr
-		mutex   bool
-		pos     token.Pos
+		i              string
+		certain        ast.Expr
+		mutex          bool     // can be true under some consistent valuation of the inside flags
+		mutexE         ast.Expr // as written
+		mutexNotAlways bool     // an expression that is false under some valuation
+		pos            token.Pos
 	}
 	type list struct {
 		entries []entry
@@ -1709,7 +1711,7 @@ func r04DecisionTable(c *core.Ctx) {
 				c.Unknown(R, "entry-shape/"+builder.Name, el.Pos(), "quadrantToCheck entry is not a positional {i, certain, mutex} literal")
 				continue
 			}
-			l.entries = append(l.entries, entry{canon(e.Elts[0]), e.Elts[1], canon(e.Elts[2]) == "true", e.Pos()})
+			l.entries = append(l.entries, entry{i: canon(e.Elts[0]), certain: e.Elts[1], mutex: canon(e.Elts[2]) == "true", mutexE: e.Elts[2], pos: e.Pos()})
 		}
 		lists = append(lists, l)
 		return false
@@ -1721,6 +1723,29 @@ func r04DecisionTable(c *core.Ctx) {
 		same := hasFact(l.facts, q1+"=="+q2, true)
 		var desc []string
 		bad := ""
+		// a mutex flag written as an expression over the inside flags: set if it can be true under a valuation the
+		// list's own path conditions allow; anything else is not understood
+		for ei := range l.entries {
+			e := &l.entries[ei]
+			if cm := canon(e.mutexE); cm == "true" || cm == "false" {
+				continue
+			}
+			for _, a1 := range []bool{false, true} {
+				for _, a2 := range []bool{false, true} {
+					if !consistent(l.facts, a1, a2) {
+						continue
+					}
+					mv, ok := evalBool(e.mutexE, a1, a2, 0)
+					if !ok {
+						bad += fmt.Sprintf("the `mutex` flag of entry %s is not a boolean combination of the two inside flags (%s); ", e.i, canon(e.mutexE))
+					} else if mv {
+						e.mutex = true
+					} else {
+						e.mutexNotAlways = true
+					}
+				}
+			}
+		}
 		for _, e := range l.entries {
 			desc = append(desc, fmt.Sprintf("{%s, %s, %v}", e.i, canon(e.certain), e.mutex))
 			// (a) certain only for an endpoint's own quadrant when that endpoint is inside the parent
@@ -1752,6 +1777,9 @@ func r04DecisionTable(c *core.Ctx) {
 				}
 			}
 			// (b) mutex only on the two quadrants adjacent to pt1's, in the diagonal arm
+			if e.mutex && e.mutexNotAlways && (e.i == adjX1 || e.i == adjY1) {
+				bad += fmt.Sprintf("entry %s is mutually exclusive only under some positions of the end points; ", e.i)
+			}
 			if e.mutex && !(diagonal && (e.i == adjX1 || e.i == adjY1)) {
 				bad += fmt.Sprintf("entry %s has mutex set outside the diagonal case / on a non-adjacent quadrant; ", e.i)
 			}
